@@ -122,8 +122,13 @@ Section PasswordThm.
   Theorem slave_hash_tracks :
     forall sops pw0, hub_slave_hash sha256hex pw0 sops = sha256hex (slave_password pw0 sops).
   Proof.
-    unfold hub_slave_hash. induction sops as [|[q|] r IH]; intros pw0; simpl; [reflexivity| |]; apply IH.
+    unfold hub_slave_hash. induction sops as [|[[q|]|] r IH]; intros pw0; simpl; [reflexivity| | |]; apply IH.
   Qed.
+
+  (* renaming the slave (any number of times, anywhere in the history) does not change the hash the hub keeps for it *)
+  Theorem slave_hash_rename_invariant :
+    forall pw0 a b, hub_slave_hash sha256hex pw0 (a ++ SRename :: b) = hub_slave_hash sha256hex pw0 (a ++ b).
+  Proof. intros. unfold hub_slave_hash. rewrite !fold_left_app. reflexivity. Qed.
 
   Lemma api_stable :
     forall o ps a n v, stable ps a n v -> stable (prun ps (api_ops o)) (upd o Admin a) (upd o Normal n) (upd o Viewonly v).
